@@ -19,13 +19,14 @@ func TestVerif(t *testing.T) { harn.Main(t) }
 // ---- world: one node per execution --------------------------------------------------------
 
 type World struct {
-	ex    *vsched.Exec
-	n     *node
-	recs  map[string]*rec
-	pids  map[string]gen.PID
-	Check func()
-	out   []string
-	tb    testing.TB
+	ex     *vsched.Exec
+	n      *node
+	recs   map[string]*rec
+	pids   map[string]gen.PID
+	Check  func()
+	out    []string
+	tb     testing.TB
+	nsetup int
 }
 
 func startNode(name string, mode gen.NetworkMode) *node {
@@ -158,7 +159,13 @@ func msgName(m any) string {
 	return fmt.Sprint(m)
 }
 
+// doMsg makes a probe execute fn inside a callback (set-up of links, calls, ...); not logged.
+type doMsg struct{ fn func(p *probe) error }
+
 func (p *probe) HandleMessage(from gen.PID, m any) error {
+	if d, ok := m.(doMsg); ok {
+		return d.fn(p)
+	}
 	p.enter("M:" + msgName(m))
 	defer p.exit()
 	if p.cfg.onMsg != nil {
@@ -193,18 +200,22 @@ func (p *probe) Terminate(reason error) {
 	}
 }
 
-// spawnProbe starts a probe actor from the (uncontrolled) harness goroutine and waits until its
-// first runner is asleep again, so that every execution starts from the same state.
+// spawnProbe starts a probe actor in a set-up phase (controlled, default schedule, run to
+// quiescence), so that every execution starts from the same state.
 func (w *World) spawnProbe(name string, cfg probeCfg, opts gen.ProcessOptions) gen.PID {
 	r := &rec{name: name}
 	cfg.rec = r
 	w.recs[name] = r
-	pid, err := w.n.Spawn(func() gen.ProcessBehavior { return &probe{} }, opts, cfg)
-	if err != nil {
-		panic(err)
-	}
+	var pid gen.PID
+	w.nsetup++
+	w.Setup(fmt.Sprintf("setup%d-%s", w.nsetup, name), func() {
+		var err error
+		pid, err = w.n.Spawn(func() gen.ProcessBehavior { return &probe{} }, opts, cfg)
+		if err != nil {
+			panic(err)
+		}
+	})
 	w.pids[name] = pid
-	waitSleep(w.n, pid)
 	return pid
 }
 
@@ -248,4 +259,127 @@ func count(xs []string, x string) int {
 		}
 	}
 	return n
+}
+
+// Do runs fn inside a callback of the named probe in a set-up phase.
+func (w *World) Do(name string, fn func(p *probe) error) {
+	w.nsetup++
+	w.Setup(fmt.Sprintf("do%d-%s", w.nsetup, name), func() {
+		if err := w.n.Send(w.pids[name], doMsg{fn}); err != nil {
+			panic(err)
+		}
+	})
+}
+
+// Setup runs fn as a controlled thread with the default schedule until quiescence.
+func (w *World) Setup(name string, fn func()) {
+	w.ex.Thread(name, fn)
+	w.ex.RunSetup()
+}
+
+// watch makes observer obs (a trapping probe) link to and monitor target.
+func (w *World) watch(obs string, target gen.PID) {
+	if _, ok := w.pids[obs]; !ok {
+		w.spawnProbe(obs, probeCfg{trap: true}, gen.ProcessOptions{})
+	}
+	w.Do(obs, func(p *probe) error {
+		if err := p.LinkPID(target); err != nil {
+			panic(err)
+		}
+		if err := p.MonitorPID(target); err != nil {
+			panic(err)
+		}
+		return nil
+	})
+}
+
+func (w *World) alive(name string) bool {
+	_, err := w.n.ProcessInfo(w.pids[name])
+	return err == nil
+}
+
+// ---- meta probe -------------------------------------------------------------------------------
+
+type metaProbe struct {
+	gen.MetaProcess
+	r     *rec
+	start *vsched.Gate // Start() returns when this gate opens
+	onMsg func(m *metaProbe, from gen.PID, msg any) error
+}
+
+func (m *metaProbe) enter(what string) {
+	r := m.r
+	if r.active != 0 {
+		r.overlaps = append(r.overlaps, what)
+	}
+	r.active++
+	c := r.counter
+	vsched.Point(vsched.OpUser, 1)
+	r.counter = c + 1
+	r.calls++
+	r.log = append(r.log, what)
+	if len(r.term) > 0 && !strings.HasPrefix(what, "T:") {
+		r.afterT = append(r.afterT, what)
+	}
+}
+func (m *metaProbe) exit() {
+	vsched.Point(vsched.OpUser, 2)
+	m.r.active--
+}
+func (m *metaProbe) Init(p gen.MetaProcess) error {
+	m.MetaProcess = p
+	m.enter("I")
+	defer m.exit()
+	return nil
+}
+func (m *metaProbe) Start() error {
+	m.start.Wait()
+	return nil
+}
+func (m *metaProbe) HandleMessage(from gen.PID, msg any) error {
+	m.enter("M:" + msgName(msg))
+	defer m.exit()
+	if m.onMsg != nil {
+		return m.onMsg(m, from, msg)
+	}
+	return nil
+}
+func (m *metaProbe) HandleCall(from gen.PID, ref gen.Ref, request any) (any, error) {
+	m.enter("C:" + fmt.Sprint(request))
+	defer m.exit()
+	return "re:" + fmt.Sprint(request), nil
+}
+func (m *metaProbe) Terminate(reason error) {
+	m.r.term = append(m.r.term, reason.Error())
+	m.enter("T:" + reason.Error())
+	defer m.exit()
+}
+func (m *metaProbe) HandleInspect(from gen.PID, item ...string) map[string]string {
+	m.enter("N")
+	defer m.exit()
+	return nil
+}
+
+// spawnMeta spawns a meta process owned by a fresh probe "P<name>" inside a set-up phase (its
+// Start goroutine must be a controlled thread).
+func (w *World) spawnMeta(name string, opts gen.MetaOptions) (gen.Alias, *metaProbe) {
+	r := &rec{name: name}
+	w.recs[name] = r
+	mp := &metaProbe{r: r, start: &vsched.Gate{}}
+	var id gen.Alias
+	owner := "P" + name
+	w.Setup("setup-"+name, func() {
+		pr := &rec{name: owner}
+		w.recs[owner] = pr
+		pid, err := w.n.Spawn(func() gen.ProcessBehavior { return &probe{} }, gen.ProcessOptions{}, probeCfg{rec: pr, onInit: func(p *probe) error {
+			a, err := p.SpawnMeta(mp, opts)
+			id = a
+			return err
+		}})
+		if err != nil {
+			panic(err)
+		}
+		w.pids[owner] = pid
+	})
+	return id, mp
 }
